@@ -31,6 +31,7 @@ PROGRAMS = [
     "g = x => x if x > 0 else 0\nh = (a, b) => a if a else b\nl | map(v => v if v else 1) | filter(w => not w)\ng(1) + h(2, 3)",
     "d = {'a': x, 'a': y, 1: p, 1.0: q, True: r, None: 1, None: 2}\ne = {k: 1, k: 2}\nf({'z': 0, \"z\": 0})\nd",
     "x = 10\n-x\nt = a\n[0]\nu = f\n(1)\nv = u\nnot v\nw = 7.5\n- 1",
+    "a = 1\n" + ";\n" * 150 + "# c\n" * 40 + "b = a\n" + "b\n" * 130 + "a",
 ]
 
 
